@@ -280,9 +280,10 @@ def run(tier):
     verdict = C.Verdict(PROP)
     thorough = tier == "thorough"
     seed = C.seed()
-    nproc = 12 if thorough else 8
-    sim_jobs = [(i, 450 if thorough else 80) for i in range(8 if thorough else 4)]
-    bfs_cfgs = ["Gen_HeapRefs_bfs_q.cfg"] + (["Gen_HeapRefs_bfs_t.cfg"] if thorough else [])
+    nproc = 14 if thorough else 8
+    sim_jobs = [(i, 300 if thorough else 80) for i in range(8 if thorough else 4)]
+    # (the state graph of bfs_t contains that of bfs_q: features only add actions)
+    bfs_cfgs = ["Gen_HeapRefs_bfs_t.cfg"] if thorough else ["Gen_HeapRefs_bfs_q.cfg"]
     m_cfgs = ["MC_HeapRefs_quick.cfg"] + (["MC_HeapRefs_full.cfg"] if thorough else [])
 
     states = transitions = 0
@@ -349,7 +350,7 @@ def run(tier):
     t_replay = time.time() - t0 - t_gen
 
     # V: validate what the real heaps did against the specification
-    vfiles = split_trace(tpaths, wd, 4000)
+    vfiles = split_trace(tpaths, wd, 8000 if thorough else 4000)
     n_events = sum(len(e) for _, e in vfiles)
     n_freed = sum(len(e.get("freed", [])) for _, evs in vfiles for e in evs)
     n_edges = sum(len(e.get("edges", [])) for _, evs in vfiles for e in evs)
